@@ -138,8 +138,15 @@ pub fn check_literal(ctx: &mut Ctx, lit: &[u8]) {
     }
     match (sonic_rs::from_str::<f32>(s), want) {
         (Ok(g), Some(w)) if !matches!(w, RefNum::Inf) => {
+            // an integer literal within 64 bits reaches the f32 visitor as that exact integer and
+            // is converted in one rounding (what serde and serde_json do: C04); every other
+            // literal is the f64 result narrowed once
             let exact: f64 = s.parse().unwrap();
-            let wf = exact as f32;
+            let wf = match w {
+                RefNum::U(u) => u as f32,
+                RefNum::I(i) => i as f32,
+                _ => exact as f32,
+            };
             if g.to_bits() != wf.to_bits() && !(is_neg_zero_int_literal(lit) && g == 0.0) {
                 ctx.fail("f32-value", format!("from_str::<f32>({:?}) = {:e} ({:#x}), f64 narrowed once = {:e} ({:#x})", s, g, g.to_bits(), wf, wf.to_bits()));
             }
@@ -324,6 +331,40 @@ impl Check for C07 {
                             check_literal(ctx, numlit::respell_int(&mut r, l).as_bytes());
                         }
                     }
+                    // f64 rounding boundaries next to an f64 that is itself halfway between two f32:
+                    // the narrowing of an f32 target then hinges on the last bit of the f64 result
+                    // (literals just below / at / just above the boundary on either side of it)
+                    {
+                        let bits = match r.below(3) {
+                            0 => (r.next() as u32) & 0x7f7f_ffff,
+                            1 => ((127 + r.below(64) as u32) << 23) | (r.next() as u32 & 0x7f_ffff),
+                            _ => ((127 - r.below(40) as u32) << 23) | (r.below(16) as u32),
+                        };
+                        let x32 = f32::from_bits(bits);
+                        let y32 = f32::from_bits(bits + 1);
+                        if x32.is_finite() && y32.is_finite() && x32 > 0.0 {
+                            let m = (x32 as f64 + y32 as f64) / 2.0;
+                            for base in [m, f64::from_bits(m.to_bits() - 1)] {
+                                if let Some(lits) = numlit::halfway(base) {
+                                    for l in &lits {
+                                        check_literal(ctx, l.as_bytes());
+                                        check_literal(ctx, numlit::respell_int(&mut r, l).as_bytes());
+                                        check_literal(ctx, numlit::respell(&mut r, l).as_bytes());
+                                        check_literal(ctx, format!("-{}", l).as_bytes());
+                                    }
+                                }
+                            }
+                            // the f32 tie itself with dropped digits behind it
+                            let (i, f) = numlit::exact_dec(m);
+                            let exact = numlit::render(&(i, f));
+                            for tail in ["", "0000000000000000000001", "00000000000000000000000000000000000000001"] {
+                                let l = if exact.contains('.') { format!("{}{}", exact, tail) } else if tail.is_empty() { exact.clone() } else { format!("{}.{}", exact, tail) };
+                                check_literal(ctx, l.as_bytes());
+                                check_literal(ctx, numlit::respell_int(&mut r, &l).as_bytes());
+                            }
+                            ctx.class("gen:f32-boundary");
+                        }
+                    }
                     // ties of at most 19 significant digits (the whole significand fits the fast
                     // path's 64-bit integer), spelled with an integer significand and an exponent
                     for _ in 0..2 {
@@ -378,6 +419,6 @@ impl Check for C07 {
         }
     }
     fn required_classes(&self, _b: &str, _t: Tier) -> Vec<&'static str> {
-        vec!["gen:exhaustive-small-grammar", "gen:digit-counts", "gen:powers-of-ten", "gen:halfway", "gen:short-tie", "gen:halfway-far-deviation", "gen:halfway-subnormal", "gen:hostile", "class:u64", "class:i64", "class:f64", "class:infinite", "literal:invalid", "literal:>19-bytes"]
+        vec!["gen:exhaustive-small-grammar", "gen:digit-counts", "gen:powers-of-ten", "gen:halfway", "gen:short-tie", "gen:f32-boundary", "gen:halfway-far-deviation", "gen:halfway-subnormal", "gen:hostile", "class:u64", "class:i64", "class:f64", "class:infinite", "literal:invalid", "literal:>19-bytes"]
     }
 }
